@@ -6,3 +6,9 @@ def slow_square(x):
     # tasks finish out of submission order
     time.sleep(0.02 * ((7 * x) % 5))
     return (x, x * x)
+
+
+def even_square(x):
+    # every task takes the same time: with w workers, w tasks finish together
+    time.sleep(0.03)
+    return (x, x * x)
